@@ -547,7 +547,7 @@ def r16_9(ctx):
 
 def rules(ctx):
     from . import c17
-    return [r16_1, r16_2, r16_3, r16_4, r16_5, r16_6, r16_7, r16_8, r16_9, c17.r17_4]
+    return [__import__('vjsx.rules.c10', fromlist=['x']).field_ratchet('resolved props must not depend on what was resolved before'), r16_1, r16_2, r16_3, r16_4, r16_5, r16_6, r16_7, r16_8, r16_9, c17.r17_4]
 
 
 EXPLANATION = (
